@@ -85,8 +85,13 @@ def gen_history(rng):
         return m, {"$h": rng.choice(["d_lin", "d_lin2", "d_lin3"] if m == "linear" else ["d_pl", "d_pl2"])}
     for _ in range(n):
         feh = rng.choice(few)
-        k = rng.choice(["IFMR", "IFMR", "EvolvedMF", "EvolvedMFWithBH", "from_IMF"])
-        if k == "IFMR":
+        k = rng.choice(["IFMR", "IFMR", "EvolvedMF", "EvolvedMFWithBH", "from_IMF", "from_IMF", "from_BHMF"])
+        if k == "from_BHMF":
+            args = dict(m_breaks=rng.choice([[5.0, 15.0, 40.0], [6.0, 30.0]]), a_slopes=None, nbins=rng.choice([[4, 4], [6]]), FeH=feh,
+                        N0=rng.choice([1000, 2500.0]), natal_kicks=rng.choice([False, False, True]))
+            args["nbins"] = args["nbins"][:len(args["m_breaks"]) - 1] if len(args["nbins"]) >= len(args["m_breaks"]) - 1 else [3] * (len(args["m_breaks"]) - 1)
+            args["a_slopes"] = [-1.0, -2.3][:len(args["m_breaks"]) - 1]
+        elif k == "IFMR":
             m = rng.choice(["banerjee20", "banerjee20", "cosmic-rapid", "linear", "linear", "powerlaw"])
             kw = analytic()[1] if m == "linear" else {"$h": rng.choice(["d_pl", "d_pl2"])} if m == "powerlaw" else \
                 rng.choice([{"$h": "d_empty"}, {"$h": "d_empty"}, None])
@@ -128,11 +133,13 @@ def run(chk):
         hist = dict(history=hi, calls=[dict(kind=c["kind"], args={k: (v if not isinstance(v, dict) or "$h" not in v else "<%s>" % v["$h"])
                                                                  for k, v in c["args"].items()}) for c in calls])
         chk.note_distinct(hist)
+        alive = []
         for ci, c in enumerate(calls):
             before = {h: snap(o) for h, o in pool.items()}
             try:
                 obj = FW.build(c, pool)
                 dg = FW.digest(obj)
+                alive.append((ci, obj, dg))
             except Exception as e:  # noqa
                 dg = "ERR:" + type(e).__name__
             after = {h: snap(o) for h, o in pool.items()}
@@ -141,6 +148,18 @@ def run(chk):
                 chk.fail("building a model leaves every argument object unchanged", dict(hist, call=ci), dict(changed=changed))
                 # restore so that later calls are judged on their own
             records.append((hist, ci, c, dg))
+        # a result is a value: later constructions do not change what an earlier model reports (all models of the history are still alive)
+        for ci, obj, dg in alive:
+            chk.count("earlier results re-read at the end of their history")
+            try:
+                dg2 = FW.digest(obj)
+            except Exception as e:  # noqa
+                dg2 = "ERR:" + type(e).__name__
+            if dg2 != dg:
+                names = [n_ for n_ in ("age", "Ns_lost", "Ms_lost", "BH_ret_dyn", "converged") if hasattr(obj, n_)]
+                chk.fail("building the same model after any sequence of other constructions gives bit-identical results", dict(hist, call=ci),
+                         dict(digest_when_built=dg, digest_after_the_later_constructions=dg2,
+                              summary_now={n_: C.jsonable(getattr(obj, n_)) for n_ in names}))
         chk.count("calls in histories", len(calls))
     # references: each call alone, in a fresh interpreter, with fresh literal arguments
     def ref(rec):
